@@ -1156,6 +1156,11 @@ def flip(x, /, *, axis=None):
     if not isinstance(axis, Iterable):
         axis = (axis,)
 
+    axis = normalize_axis(axis, x.ndim)
+
+    if len(np.unique(axis)) < len(axis):
+        raise ValueError("repeated axis in flip")
+
     new_coords = x.coords.copy()
     for ax in axis:
         new_coords[ax, :] = x.shape[ax] - 1 - x.coords[ax, :]
